@@ -149,6 +149,7 @@ static inline void ABTI_thread_terminate(ABTI_global *p_global,
          * because the ULT can be freed on a different ES.  In other words, we
          * must not access any field of p_thead after changing the state to
          * TERMINATED. */
+        ABTI_VERIF_POINT(ABTI_VERIF_P_TERMINATE_BEFORE_STORE);
         ABTD_atomic_release_store_int(&p_thread->state,
                                       ABT_THREAD_STATE_TERMINATED);
     }
